@@ -112,14 +112,14 @@ func (c *countRule) OnInstr(x *Explorer, fr *Frame, in ssa.Instruction, st uint6
 func checkC01(w *World, r *Report) {
 	r.Explanation = "Decides the structural necessary conditions of the escrow equalities: (ESC-ROLE) every transfer reachable from the entry points has attributed payer/payee in the confirmed table within one auction — nothing else debits or credits an escrow; (CREDIT-RECORD) the coin credited to the selling escrow at creation is the very SellingCoin stored in the record (and the initial remainder); the coin credited to the paying escrow at placement is, per admitted bid type, the bid's own to-paying conversion applied to the price and coin that are stored (fixed price, how-many: {AMT | ceil(AMT×PRICE)}) or the stored worth coin itself; at modification it is the difference of the stored and new worth coins / of the two ceilings; all with rounding directions CEIL, CEIL-DIFF or EXACT; (PAIR-RESERVE) per admitted bid type every non-failing placement performs exactly one reservation before the Bid record write (and for the fixed price type also subtracts the remainder and stores the auction); a modification reserves exactly when the difference coin is positive and always writes the record; (DRAIN) the unsold return, the sweep and the cancel refund send NewCoin(d, SpendableCoins(escrow).AmountOf(d)) of the debited escrow in that escrow's denomination, after the per-bidder transfers (SETTLE-SEQ, C02); (VEST-*) the vesting escrow is credited with the total the queue records sum to and debited only together with marking a record released."
 	r.NotDecided = "the numerical equalities themselves for all prices/amounts and interleavings; bank-module behaviour (transfers move exactly the coins named); coins sent to an escrow by third parties. The module's own >= invariants are not registered with the app (noted)."
-	r.Rule("ESC-ROLE", "transfers have attributed roles in the confirmed table", 12)
+	r.Rule("ESC-ROLE", "transfers have attributed roles in the confirmed table", 8)
 	r.Rule("CREDIT-RECORD", "credited amount = what the record says", 6)
 	r.Rule("PAIR-RESERVE", "reservation ⇔ record", 5)
-	r.Rule("DRAIN", "closing transfers take the escrow's whole balance", 3)
-	r.Rule("VEST-SHARE", "instalment = floor(total × weight) of the swept total, keyed by its own schedule entry", 2)
-	r.Rule("VEST-REM", "last instalment takes the running remainder", 2)
-	r.Rule("VEST-ONCE", "release transfer ⇔ Released persisted for the same record", 3)
-	r.Rule("VEST-WRITERS", "vesting queue writers", 3)
+	r.Rule("DRAIN", "closing transfers take the escrow's whole balance", 2)
+	r.Rule("VEST-SHARE", "instalment = floor(total × weight) of the swept total, keyed by its own schedule entry", 1)
+	r.Rule("VEST-REM", "last instalment takes the running remainder", 1)
+	r.Rule("VEST-ONCE", "release transfer ⇔ Released persisted for the same record", 2)
+	r.Rule("VEST-WRITERS", "vesting queue writers", 2)
 	r.Rule("VEST-DISTINCT", "release times are strictly increasing and after the end time (they key the queue)", 4)
 	tm := NewTerms(w)
 	ms := w.msgServerMethods()
